@@ -697,6 +697,12 @@ impl MqttClientImpl {
                 self.protocol_state.handle_user_event(user_event_context);
             }
             OperationOptions::Start(listener_option) => {
+                if self.desired_state == ClientImplState::Shutdown {
+                    // close is terminal: a start that is processed after it must not revive the client
+                    debug!("Ignoring start request, the client has been closed");
+                    return;
+                }
+
                 if let Some(listener) = listener_option {
                     self.listeners.insert(0, listener);
                 }
